@@ -400,3 +400,32 @@ Proof.
     exists false. rewrite HW3. exact HT.
 Qed.
 End Api.
+
+(* ---- the full statements of C11 ---- *)
+Lemma c11_dual_full : forall A cfg, map_normalize A [] = [] -> C11_dual_statement A cfg.
+Proof.
+  intros A cfg H0 d deny hy p s a Hb Hv H.
+  exact (dual_two_calls A cfg p d deny hy s a Hb (redisc_of_adapter A cfg deny H0 (proj1 (valid_deny_facts deny Hv))) H).
+Qed.
+Lemma c11_passthrough_full : forall A cfg, map_normalize A [] = [] -> C11_passthrough_statement A cfg.
+Proof.
+  intros A cfg H0 ff p d deny hy k1 k2 w s a Hb Hv H Hk. split.
+  - exact (passthrough_ascii_input A cfg ff p d deny hy k1 k2 w s a Hb H).
+  - exact (passthrough_own_result A cfg ff p d deny hy k1 k2 w s a Hb
+             (redisc_of_adapter A cfg deny H0 (proj1 (valid_deny_facts deny Hv))) H Hk).
+Qed.
+
+(* the adapter premise of c11_dual_full cannot be dropped: with the adapter of Proofs/Idna_MarkWalk.v that maps the
+   empty text to "a", the dual-output call on "xn--a-" writes both texts although to_ascii of the same name is an error *)
+Lemma w_c11_dual_h0 cfg :
+  process nonempty_map cfg false always_unicode W_C11_h0 DENY_EMPTY HAllow None None true
+    = (PWroteToSink, [128; 97], [120; 110; 45; 45; 97; 45; 97]).
+Proof. destruct cfg; vm_compute; reflexivity. Qed.
+Lemma c11_dual_unconditional_refuted : exists A, forall cfg, ~ C11_dual_statement A cfg.
+Proof.
+  exists nonempty_map. intros cfg H. destruct (w_c11_h0 cfg) as (_ & Ha & _).
+  assert (Hb : bytes W_C11_h0) by (unfold W_C11_h0; repeat constructor; unfold is_byte; lia).
+  assert (Hv : valid_deny DENY_EMPTY) by (right; exists T_IDNA_EMPTY_GLYPHLESS, T_IDNA_EMPTY_LIST; reflexivity).
+  destruct (H W_C11_h0 DENY_EMPTY HAllow always_unicode _ _ Hb Hv (w_c11_dual_h0 cfg)) as [_ (b & Hx)].
+  rewrite Ha in Hx. discriminate.
+Qed.
